@@ -486,7 +486,9 @@ def _matching(m, o, un):
          'spans': spans, 'pat_ok': pat_ok, 'un': b(un)}
     kw = {'regex': regex, 'match_case': mc, 'count': count}
     fn = x.unformat_matching if un else x.format_matching
-    return a, (lambda: (fn(pat, *fmts, **kw), twin)), 'matching', {'inplace': ip}
+    # the pattern given as an AnsiStr (a str): its TEXT is the pattern
+    pat_arg = m.lib.AnsiStr(pat, 'bold') if (o.get('pat_astr') and pat) else pat
+    return a, (lambda: (fn(pat_arg, *fmts, **kw), twin)), 'matching', {'inplace': ip}
 
 
 @op('format_matching')
